@@ -1,9 +1,9 @@
 \* behaviour generation, tour of every distinct quiescent state of the model AS THE PINNED TREE BEHAVES
 \* (history hidden by VIEW; the first history reaching each distinct quiescent state is printed)
 CONSTANTS NodeNames = {"n1", "n2"}  ClaimNames = {"c1"}  PodKeys = {"p1", "p2"}  Pids = {"i1", "i2"}  Pools = {"a"}
-          PortNames = {"80", "81"}
-          Defects = {"costCarry", "nodeGone", "podUnbound", "volUnion"}  MaxMut = 4  MaxDup = 1  MaxLen = 1000  WithTerm = FALSE
-          WithRestart = FALSE  PodShapes = {"std", "alt"}  MaxPend = 2
+          PortNames = {"80", "81", "82"}
+          Defects = {"nodeGone", "podUnbound", "volUnion", "dsKept"}  MaxMut = 4  MaxDup = 1  MaxLen = 1000  WithTerm = FALSE
+          WithRestart = FALSE  PodShapes = {"std", "alt"}  Start = "empty"  MaxFail = 1  MaxPend = 2
 SPECIFICATION Spec
 VIEW view
 INVARIANTS GenQuiescent
